@@ -6,6 +6,7 @@ import vlib
 from vlib import zl, ql, zlit, qlit
 import py2coq
 import c13_hist
+import gen_C13
 
 HEADER = '''From Coq Require Import ZArith QArith List Bool.
 From Pymoto Require Import Base.Num Base.Cmp Model.Grid Model.Shape Model.GridHist.
@@ -37,13 +38,21 @@ def run(ctx):
                 'shape functions at dyadic (exact) and random rational (1e-9) points; element sizes handed over as floats and, '
                 'integer-valued, as Python ints / numpy ints / mixed kinds (node positions, shape functions and derivatives; '
                 'evaluation points as float and as integer arrays); a case is non-trivial when the grid has '
-                '>= 2 elements or the aspect is a shape-function evaluation; distinct by (grid, aspect, parameters)')
+                '>= 2 elements or the aspect is a shape-function evaluation; distinct by (grid, aspect, parameters); '
+                'histories on ONE domain object (c13_hist.py): deterministic sweep (every query, its result overwritten by the harness at once, every '
+                'attribute read, every query again) and write_to_vti / plot histories (scale 2, 0.5, default, 4, origins; geometric queries around them) on '
+                'float / Python-int / numpy-int / mixed element sizes in 2-D and 3-D on every seed + random histories (queries, delayed overwrites of any '
+                'returned array, writes, snapshots), three objects driven interleaved; one correspondence case per history (run_obs of Model/GridHist.v)')
     ctx.assumptions += ['1-D domains (nely = 0) are outside the property and not generated',
-                        'shape-function theorems are over the reals; floats are tied by exact (dyadic) / 1e-9 comparison']
+                        'shape-function theorems are over the reals; floats are tied by exact (dyadic) / 1e-9 comparison',
+                        'histories: write_to_vti is observed through the Spacing/Origin attributes of the file header only (its output is C20); plot / update_plot '
+                        'only through their effect on the domain (an exception of a plot method is tolerated and counted: outside the property text)']
     ctx.trusted += ['Print Assumptions: real-number theorems rely on the standard axioms ClassicalDedekindReals.sig_forall_dec, '
                     'sig_not_dec and FunctionalExtensionality.functional_extensionality_dep (Coq stdlib Reals); '
                     'the Z/list theorems are closed under the global context',
-                    'modelled rather than verified: numpy integer array arithmetic/broadcasting in DomainDefinition (validated by exhaustive correspondence)']
+                    'modelled rather than verified: numpy integer array arithmetic/broadcasting in DomainDefinition (validated by exhaustive correspondence)',
+                    'tools/gen_C13.py: conservative, fail-closed effect analysis of the methods of DomainDefinition (frame condition of Model/GridHist.v); '
+                    'its soundness is not proved, the history oracle cross-checks it on every run']
     vlib.audit(ctx)
     if not vlib.ensure_static(ctx, ['theories/Props/C13.vo', 'theories/Props/C13h.vo']):
         return
@@ -65,6 +74,25 @@ def run(ctx):
     if not gen_ok:
         ctx.violation('proof', 'pymoto/common/domain.py', 'generated formulas equal Model/Grid.v', 'translator/bridge',
                       dict(error=err[-3000:]), theorem='BridgeC13.GridBridge')
+    # ---- (T) frame condition: effect analysis of every method (writes to self / to argument arrays, results aliasing an attribute)
+    eff_ok, eff_err = True, ''
+    try:
+        p = ctx.write_gen('EffectsGen.v', gen_C13.gen_effects(vlib.REPO))
+        eff_ok, _, eff_err = vlib.compile_file(ctx, p, 'gen:EffectsGen.v compiles', 'translator')
+    except py2coq.Unsupported as e:
+        ctx.obligation('gen:EffectsGen.v effect analysis', 'translator', False, str(e))
+        eff_ok, eff_err = False, str(e)
+    if eff_ok:
+        eff_ok, _, eff_err = vlib.compile_file(ctx, os.path.join(ctx.bridge_dir, 'EffectsBridge.v'),
+                                               'bridge:EffectsBridge (no method writes to the object or hands out one of its arrays)', 'bridge')
+    if not eff_ok:
+        try:
+            eff = [dict(method=n, may_write=w, result_may_alias=r) for n, w, r in gen_C13.domain_effects(vlib.REPO) if w or r]
+        except py2coq.Unsupported as e:
+            eff = str(e)
+        ctx.violation('proof', 'pymoto/common/domain.py', 'methods of DomainDefinition are pure and return fresh arrays (static effect analysis)',
+                      'translator/bridge', dict(effects=eff, error=eff_err[-2000:]), theorem='BridgeC13.EffectsBridge')
+        gen_ok = False
     vlib.check_props(ctx)
     vlib.check_props(ctx, 'theories/Props/C13h.v')     # the object as a state machine: queries are pure and return fresh arrays
 
